@@ -411,8 +411,38 @@ func c13Run(cc *run.Case, w *btWorld, workers int, raceOnly bool) (string, bool)
 	html := backtest.NewHTMLReport(dir)
 	html.Logger = quietLogger
 	html.WriteStrategyReports = cc.R.Intn(3) == 0
+	customDates := html.WriteStrategyReports && cc.R.Bool()
+	if customDates {
+		html.DateFormat = "2006-01-02 15h04" // the strategy reports must label their rows in THIS format
+	}
 	if err := newBT(repo, html).Run(); err != nil {
 		return fail("Run with HTMLReport returned an error: " + err.Error())
+	}
+	if !raceOnly && customDates {
+		// one strategy report of an asset with snapshots: its date labels carry the hour
+		for _, a := range sc.Assets {
+			if len(w.inside[a]) == 0 {
+				continue
+			}
+			for _, sn := range sc.Strategies {
+				if sn == sc.Unwritable {
+					continue
+				}
+				b, err := os.ReadFile(filepath.Join(dir, fmt.Sprintf("%s - %s.html", a, sn)))
+				if err != nil {
+					return fail(fmt.Sprintf("no strategy report for (%s, %s): %v", a, sn, err))
+				}
+				if !strings.Contains(string(b), "data.addRow(") {
+					continue // a report without rows (fewer snapshots than the warm-up) has no labels
+				}
+				if !strings.Contains(string(b), "00h00") {
+					return fail(fmt.Sprintf("the strategy report of (%s, %s) does not label its rows in the report's DateFormat %q (no %q in the page)", a, sn, html.DateFormat, "00h00"))
+				}
+				cc.Count("strategy_report_date_formats_checked", 1)
+				break
+			}
+			break
+		}
 	}
 	if !raceOnly {
 		best := map[string]float64{}
